@@ -99,4 +99,27 @@ pub mod skel {
             Stream::Cons(a, l) => json!(["cons", st(a), lazy(l)]),
         }
     }
+    /// The same skeleton for streams over any user type (states shown with an empty trail): used by the
+    /// surface backend, whose programs run with the library's DefaultUser.
+    pub fn lazy_plain<U: proto_vulcan::user::User, X: proto_vulcan::engine::Engine<U>>(l: &LazyStream<U, X>) -> Value {
+        match &*l.0 {
+            Lazy::Bind(a, _) => json!(["bind", lazy_plain(a)]),
+            Lazy::MPlus(a, b) => json!(["mplus", lazy_plain(a), lazy_plain(b)]),
+            Lazy::Pause(_, _) => json!(["pause", []]),
+            Lazy::BindDFS(a, _) => json!(["bindD", lazy_plain(a)]),
+            Lazy::MPlusDFS(a, b) => json!(["mplusD", lazy_plain(a), lazy_plain(b)]),
+            Lazy::PauseDFS(_, _) => json!(["pauseD", []]),
+            Lazy::Delay(s) => json!(["delay", stream_plain(s)]),
+            Lazy::Iterator(_) => json!(["iterator"]),
+        }
+    }
+
+    pub fn stream_plain<U: proto_vulcan::user::User, X: proto_vulcan::engine::Engine<U>>(s: &Stream<U, X>) -> Value {
+        match s {
+            Stream::Empty => json!(["empty"]),
+            Stream::Unit(_) => json!(["unit", []]),
+            Stream::Lazy(l) => json!(["lazy", lazy_plain(l)]),
+            Stream::Cons(_, l) => json!(["cons", [], lazy_plain(l)]),
+        }
+    }
 }
